@@ -218,4 +218,86 @@ theorem spinning_diag_rate (E : Env) (code : List Op) (l : Nat) (hcode : E.prog.
       · simp [hd, ho, extensions]
     · simp [hd, extensions]
 
+/-! ### the time check of the model is the check of `Sched.Guard.runLoop` -/
+
+/-- reading number `j` of the injected clock counted from a moment when it shows `now` and has been read
+    `r` times -/
+def clkAt (inc : Nat → Nat) (now r : Nat) : Nat → Nat
+  | 0 => now
+  | j + 1 => clkAt inc now r j + inc (r + j)
+
+/-- after instruction `j` of the loop (time check next): the frame holds deadline = reading 0 + limit and
+    `cmdTime` = reading `j`, exactly the data `Guard.runLoop` compares -/
+structure PostJ (E : Env) (code : List Op) (l : Nat) (t : Tid) (saved : Option Tid) (now0 r : Nat) (j : Nat) (s : St) : Prop where
+  ub : s.ub = false
+  exc : s.exc = none
+  thr : ThrOK code l s t
+  stack : s.stack = [.vm t (now0 + E.cfg.maxExec) (clkAt E.inc now0 r j) true j, .sei t saved, .thrExec]
+  now : s.now = clkAt E.inc now0 r (j + 1)
+  reads : s.reads = r + j + 1
+
+theorem postJ_next (E : Env) (code : List Op) (l : Nat) (hcode : E.prog.getD l [] = code) (hspin : Spin code)
+    (t : Tid) (saved : Option Tid) (now0 r j : Nat) (s : St) (h : PostJ E code l t saved now0 r j s)
+    (hlt : clkAt E.inc now0 r j < now0 + E.cfg.maxExec) :
+    PostJ E code l t saved now0 r (j + 1) (step E (step E s)) := by
+  obtain ⟨a1, a2, a3, a4, a5, a6, a7, a8⟩ := spin_post_pass E code l s t _ _ j _ h.stack h.exc h.ub h.thr (Or.inr hlt)
+  obtain ⟨b1, b2, b3, b4, b5, _, _, b8⟩ := spin_fetch E code l hcode hspin (step E s) t _ _ j _ a1 a2 a3 a8
+  refine ⟨b3, b2, b8, ?_, ?_, ?_⟩
+  · rw [b1, h.now]
+  · rw [b4, a4, h.now, h.reads]; simp only [clkAt, Nat.add_assoc]
+  · rw [b5, a5, h.reads]; omega
+
+theorem run_add (E : Env) : ∀ (a b : Nat) (s : St), run E (a + b) s = run E b (run E a s)
+  | 0, b, s => by simp [run]
+  | a + 1, b, s => by rw [Nat.add_right_comm]; simp only [run]; exact run_add E a b (step E s)
+
+/-- as long as no earlier check fired, the state after `2j - 1` steps is `PostJ j` -/
+theorem postJ_run (E : Env) (code : List Op) (l : Nat) (hcode : E.prog.getD l [] = code) (hspin : Spin code)
+    (t : Tid) (saved : Option Tid) (now0 r : Nat) (s1 : St) (h1 : PostJ E code l t saved now0 r 1 s1) :
+    ∀ (j : Nat), (∀ i, 1 ≤ i → i ≤ j → clkAt E.inc now0 r i < now0 + E.cfg.maxExec) →
+      PostJ E code l t saved now0 r (j + 1) (run E (2 * j) s1)
+  | 0, _ => h1
+  | j + 1, hfirst => by
+    have ih := postJ_run E code l hcode hspin t saved now0 r s1 h1 j (fun i a b => hfirst i a (by omega))
+    have := postJ_next E code l hcode hspin t saved now0 r (j + 1) _ ih (hfirst (j + 1) (by omega) (Nat.le_refl _))
+    rw [show 2 * (j + 1) = 2 * j + 2 by omega, run_add]
+    exact this
+
+/-- `PostJ 1` one step after the host call has entered the VM -/
+theorem postJ_one (E : Env) (code : List Op) (l : Nat) (hcode : E.prog.getD l [] = code) (hspin : Spin code)
+    (hne : 0 < code.length) (s0 : St) (hfresh : find s0.threads s0.nextTid = none) (hd : s0.depth ≤ E.cfg.maxDepth)
+    (hub : s0.ub = false) (hL : E.cfg.maxExec ≠ 0) :
+    PostJ E code l s0.nextTid s0.cur s0.now s0.reads 1 (step E (startCall E s0 l)) := by
+  obtain ⟨a1, a2, a3, a4, a5, _, a7⟩ := spin_start E code l hne s0 hfresh hd hub hL
+  obtain ⟨b1, b2, b3, b4, b5, _, _, b8⟩ := spin_fetch E code l hcode hspin _ _ _ _ 0 _ a1 a2 a3 a7
+  refine ⟨b3, b2, b8, ?_, ?_, ?_⟩
+  · rw [b1]; simp [clkAt]
+  · rw [b4, a4]; simp [clkAt]
+  · rw [b5, a5]
+
 end Morfuse.Unwind
+
+namespace Morfuse.Sched.Guard
+
+/-- converse of `runLoop_spec`: what an answer of `runLoop` means -/
+theorem runLoop_some (clk : Nat → Nat) (maxExec : Nat) : ∀ (fuel i k : Nat), runLoop clk maxExec fuel i = some k →
+    maxExec ≠ 0 ∧ i ≤ k ∧ clk k ≥ clk 0 + maxExec ∧ ∀ j, i ≤ j → j < k → clk j < clk 0 + maxExec
+  | 0, _, _, h => by simp [runLoop] at h
+  | fuel + 1, i, k, h => by
+    simp only [runLoop] at h
+    by_cases hc : maxExec ≠ 0 ∧ clk i ≥ clk 0 + maxExec
+    · rw [if_pos hc] at h
+      cases h
+      exact ⟨hc.1, Nat.le_refl _, hc.2, fun j a b => by omega⟩
+    · rw [if_neg hc] at h
+      obtain ⟨h1, h2, h3, h4⟩ := runLoop_some clk maxExec fuel (i + 1) k h
+      refine ⟨h1, by omega, h3, ?_⟩
+      intro j hj1 hj2
+      by_cases hji : j = i
+      · subst hji
+        apply Nat.lt_of_not_le
+        intro hle
+        exact hc ⟨h1, hle⟩
+      · exact h4 j (by omega) hj2
+
+end Morfuse.Sched.Guard
